@@ -328,6 +328,27 @@ def run_workload(spec, ctx):
         for text in long_unterminated():
             query_case(ctx, text, [[{"a": "abc def_abc"}]])
             ctx.count("long_unterminated_texts")
+        # every registered filter function x every argument form (literal of each type, @, @.m,
+        # $.m, _.m, @.*) in one- to three-argument calls, on documents holding every kind of
+        # value at the positions the arguments read
+        import itertools
+
+        import jsonpath as _jp
+
+        vals = [1, "x", "number", None, True, 1.5, [1], ["number"], {"k": 1}, {}, [], ""]
+        fdocs = [[{"a": a, "t": t} for a in vals[:6] for t in vals] + [{"a": 1}, {"t": "x"}, {}, 1, "s", None, [1, 2]]]
+        args = ["@", "@.a", "@.t", "$[0].t", "_.t", "_.types", "@.*", "1", "'number'", "null", "true", "#"]
+        n_fn = 0
+        for fn in sorted(_jp.DEFAULT_ENV.function_extensions):
+            for k in (1, 2, 3):
+                for combo in itertools.product(args, repeat=k):
+                    if k == 3 and ctx.rng.random() < 0.9:
+                        continue
+                    call = "%s(%s)" % (fn, ", ".join(combo))
+                    for text in ("$[?%s]" % call, "$[?%s == 1]" % call, "$[?!%s || %s == 'number']" % (call, call)):
+                        query_case(ctx, text, fdocs)
+                        n_fn += 1
+        ctx.count("function_argument_matrix_queries", n_fn)
         for text in DIRECTED_QUERIES:
             query_case(ctx, text, ROOT_DOCS + [[{"a": v, "b": w} for v in (1, "x", None, [1], {"k": 1}, True, 1.5, "abc") for w in ("abc", [1], {"x": 1}, 2)]])
         for text in ("/#abc", "/a\\", "/\\u00e9", "/\\ud83d", "/\\", "\\", "/%", "/%zz", "/~", "/~2", "a", " /a", "/" + "9" * 30, "/-" + "9" * 30, "/#", "/#-1", "/#1e2", "/a/#", "0#", "0", "1#", "0+1", "0-1", "0+10", "0+99999999999999999999999", "/\x00", "/퟿"):
